@@ -56,9 +56,9 @@ EncodedOrder   == Len(Encoded(dn)) = Len(dn) /\ \A i \in 1..Len(dn) : Encoded(dn
 (* standard one)                                                                                              *)
 Types3 == { <<"2.5.4.3", "2.5.4.3">>, <<"2.5.4.10", "2.5.4.10">>, <<"custom:1.2.3.4", "1.2.3.4">> }
 Ops3 == { [op |-> "push", e |-> Ent(t[1], t[2], v[1], v[2])] : t \in Types3, v \in Vals } \cup { [op |-> "remove", e |-> Ent(t[1], t[2], "", "")] : t \in Types3 }
-(* both tiers: every history of 3 operations over the four types (one of them a custom type that carries the OID of a    *)
+(* both tiers: every history of 3 operations over the five types (one of them a custom type that carries the OID of a    *)
 (* standard one) and three values, one of them the empty string                                                          *)
-Types4 == Types3 \cup { <<"custom:2.5.4.3", "2.5.4.3">> }
+Types4 == Types3 \cup { <<"custom:2.5.4.3", "2.5.4.3">>, <<"custom:1.2.3", "1.2.3">> }   \* the last one is a prefix of custom:1.2.3.4
 ValsE == Vals \cup { <<"utf8", "">> }
 OpsE == { [op |-> "push", e |-> Ent(t[1], t[2], v[1], v[2])] : t \in Types4, v \in ValsE } \cup { [op |-> "remove", e |-> Ent(t[1], t[2], "", "")] : t \in Types4 }
 Histories == (IF Quick THEN [1..4 -> Ops3] ELSE [1..5 -> Ops3] \cup [1..4 -> Ops]) \cup [1..3 -> OpsE]
